@@ -269,9 +269,6 @@ def _chain_bad(universe, c):
 
 def covered_conc(a, msg=""):
     """C19-F2: a thread calls reset() while other threads use the context.
-    C14-F1: the same namespace-less class is requested under different parent
-    namespaces (by build threads, or by a build thread and a by-fields scan,
-    which builds every indexed class with parent_ns=None).
     C14-F3: a by-fields scan evicts an unbuildable indexed class while the
     failing thread looks the index up by name."""
     U = a["universe"]
@@ -279,20 +276,11 @@ def covered_conc(a, msg=""):
         return "C19-F2"
     scans = any(p["k"] == "find_type_by_fields" for p in a["progs"])
     indexed = _indexed(U, a["loaded"])
-    seen = {c: None for c in indexed} if scans else {}
-    for p in a["progs"]:
-        if p["k"] == "build" and p["c"] < len(U) and not U[p["c"]]["has_ns"]:
-            if seen.setdefault(p["c"], p["pns"]) != p["pns"]:
-                return "C14-F1"
     m = re.match(r"thread (\d+) ", msg)
     if m and scans and any(_chain_bad(U, c) for c in indexed):
         failing = a["progs"][int(m.group(1))]["k"]
         if failing in ("find_types", "find_type", "find_subclass"):
             return "C14-F3"
-        # C19-F3: concurrent by-fields scans evict the same unbuildable class twice
-        n_scans = sum(1 for p in a["progs"] if p["k"] == "find_type_by_fields")
-        if failing == "find_type_by_fields" and n_scans >= 2 and '"err": "ValueError"' in msg:
-            return "C19-F3"
     return None
 
 
@@ -404,17 +392,7 @@ def finding_f2():
     return lookup and keyerr, f"parse thread={k0}:{v0!r} alone={alone!r}; build threads={json.dumps(outs)[:200]}"
 
 
-def finding_f3():
-    """Two concurrent by-fields scans on a cold context meet an unbuildable
-    indexed class: the second eviction raises ValueError (model's schedule)."""
-    a = base(U_BADONE, [p_scan(["x"]), p_scan(["x"])], SCAN_VS_SCAN_EVICT)
-    outs, _, _ = run_forced(a)
-    alone = alone_results(a)
-    still = outs[0] == {"err": "ValueError"} and outs[1] == {"type": None} and alone == [{"type": None}, {"type": None}]
-    return still, f"threads={json.dumps(outs)} alone={json.dumps(alone)}"
-
-
-FINDINGS = {"C19-F2": finding_f2, "C19-F3": finding_f3}
+FINDINGS = {"C19-F2": finding_f2}
 
 LEVEL_TEXT = (
     "Lean proof over all schedules of the interleaved model (atomic step = one dict/slot operation or attribute "
@@ -423,8 +401,9 @@ LEVEL_TEXT = (
     "returns the cache-free answer: every published dict object is complete), build_race_benign (every concurrent "
     "build returns the cache-free metadata, the check-then-insert race only duplicates work, no KeyError), "
     "concurrent_safe_partial, thread_progress. What remains excluded is stated and refuted: reset() racing with "
-    "lookups, builds or scans (reset_*_counterexample; known finding C19-F2) and concurrent by-fields scans meeting "
-    "an unbuildable indexed class (scan_eviction_counterexample; C19-F3), both forced on the real code. With "
+    "lookups, builds or scans (reset_*_counterexample; known finding C19-F2, forced on the real code) and a scan that "
+    "evicts an unbuildable class while another thread looks it up by name (scan_eviction_lookup_counterexample, the "
+    "sequential finding C14-F3). No hypothesis on parent namespaces is left (cache keyed by (class, parent_ns)). With "
     "find_type_by_fields as a sequence of steps (one per next() of the values() iterator): "
     "concurrent_safe_with_scans / scan_linearizable (the scan equals the atomic one for every schedule) and "
     "lookups_preserve_index_keys (a complete dict object is never changed by any lookup, build or scan). The model is tied to /repo by replaying all interleavings of two threads (cold/stale/warm "
